@@ -260,6 +260,11 @@ def wire_want(line):
             if not v6 and len(pl) > 0xFFFF - len(h):
                 return "err"
             return "ok(%d)" % rfc1071(ps(src, dst, 6, len(h) + len(pl)) + zero_at(h, 16) + pl)
+        if op == "ck.w.icmp4" and len(a) == 2:
+            m, extra = a
+            if len(m) < 8 or (m[0] in (13, 14) and m[1] == 0 and len(m) != 20):
+                return None
+            return "ok(%d)" % rfc1071(zero_at(m + extra, 2))
         if op in ("ck.w.icmp4", "ck.w.igmp"):
             m = a[0]
             if len(m) < 8:
@@ -299,6 +304,14 @@ def wire_cases(rng, tier):
             yield Case(["ck.w.tcp%d\t%s\t%s\t%s\t%s" % (v, hx(src), hx(dst), hx(h), hx(pl))], {"k": "w", "want": w, "data": hx(pl)})
         m = _icmp4_message(rng, tier)
         yield Case(["ck.w.icmp4\t%s" % hx(m)], {"k": "w", "want": rfc1071(zero_at(m, 2)), "data": hx(m)})
+        # a timestamp / timestamp reply header (20 bytes) with bytes handed to the checksum functions as payload, and
+        # other messages with the payload split between the message and the extra argument
+        ts = bytes([rng.choice([13, 14]), 0]) + bytes(rng.randrange(256) for _ in range(18))
+        extra = bytes(rng.randrange(256) for _ in range(rng.choice([1, 2, 3, 8, 21, 40])))
+        yield Case(["ck.w.icmp4\t%s\t%s" % (hx(ts), hx(extra))], {"k": "w", "want": rfc1071(zero_at(ts + extra, 2)), "data": hx(ts + extra)})
+        if len(m) > 9 and not (m[0] in (13, 14) and m[1] == 0):
+            cut = rng.randrange(8, len(m))
+            yield Case(["ck.w.icmp4\t%s\t%s" % (hx(m[:cut]), hx(m[cut:]))], {"k": "w", "want": rfc1071(zero_at(m, 2)), "data": hx(m)})
         m = _igmp_message(rng, tier)
         yield Case(["ck.w.igmp\t%s" % hx(m)], {"k": "w", "want": rfc1071(zero_at(m, 2)), "data": hx(m)})
         src, dst = _addr_pair(rng, 16)
